@@ -97,19 +97,29 @@ def make_overlay(harness, tmp):
         add_tree(overlay, os.path.join(VERIF, "harness/lib", lib), os.path.join(REPO, "internal/verif/lib", lib))
     # files added to Zeno packages (accessors for package-private state)
     inpkg = os.path.join(VERIF, "engine/inpkg")
+    inpkg_files = []
     for d, _, files in os.walk(inpkg):
         for f in files:
             if not f.endswith(".go"):
                 continue
             rel = os.path.relpath(os.path.join(d, f), inpkg)
+            # common accessors (zz_verif.go) plus the ones owned by this harness
+            if f != "zz_verif.go" and f != "zz_verif_%s.go" % harness and f not in cfg.get("inpkg_extra", []):
+                continue
             if rel.startswith("_warc/"):
                 if cfg.get("warc_overlay"):
                     overlay[os.path.join(warc_dir(), rel[len("_warc/"):])] = os.path.join(d, f)
                 continue
             overlay[os.path.join(REPO, rel)] = os.path.join(d, f)
+            inpkg_files.append((os.path.join(d, f), os.path.dirname(rel)))
     instr = cfg.get("instrument", "none")
     if instr != "none" or cfg.get("instrument_harness"):
         pkgs = all_instr_pkgs() if instr == "all" else ([] if instr == "none" else list(instr))
+        # inpkg files of instrumented packages are instrumented with them
+        pkgs += ["+%s=%s" % (f, d) for f, d in inpkg_files if d in pkgs]
+        for lib in cfg.get("libs", []):
+            if cfg.get("instrument_libs", True):
+                pkgs.append("@%s=%s" % (os.path.join(VERIF, "harness/lib", lib), os.path.join("internal/verif/lib", lib)))
         exp = os.path.join(tmp, "exports.json")
         r = sh([GO, "list", "-export", "-deps", "-f", "{{if .Export}}{{.ImportPath}} {{.Export}}{{end}}", "./..."],
                cwd=REPO, capture=True)
